@@ -33,7 +33,12 @@ func MakeFromRequest(r *http.Request) CacheKey {
 	}
 	normHost := strings.ToLower(r.Host)
 	normPath := path.Clean(r.URL.Path)
-	stringKey := fmt.Sprintf("%s|%s|%s|%s|%s", scheme, r.Method, normHost, normPath, r.URL.RawQuery)
+	if strings.HasSuffix(r.URL.Path, "/") && normPath != "/" {
+		// path.Clean drops a trailing slash, but "/dir/" and "/dir" are different resources
+		normPath += "/"
+	}
+	// Quote every component so that no character can move from one component into the next
+	stringKey := fmt.Sprintf("%q|%q|%q|%q|%q", scheme, r.Method, normHost, normPath, r.URL.RawQuery)
 	slog.Debug("Creating cache key", "key", stringKey)
 	return FromString(stringKey)
 }
